@@ -7,6 +7,14 @@ ids = [json.loads(l)["id"] for l in open(os.path.join(HERE, "properties.jsonl"))
 TECH = "bounded model checking of the real code: Kani 0.68 -> CBMC 6.11 (cadical SAT); symbolic inputs, concrete sizes, unwinding assertions on; counterexamples replayed natively"
 
 CLAIMED = {
+ "C10": dict(
+   text="CBMC decides, for every generated Executor helper of corpus `basic` (5 contract methods through a contract-typed handle; interface methods through dyn-Interface and contract-typed handles) with ALL argument values symbolic: the helper yields an execute message addressed to the handle's address, carrying the funds set on the builder (symbolic amount), whose body is -- at the serde data-model level, recorded by replacing to_json_binary -- exactly the message {method: {args}} of that same method (C01 oracle), whose name is in the target's published list (routable, C03); the generated instantiate helper + InstantiateBuilder give code id, flat arguments, admin, label (empty when unset) and funds; Remote::executor / update_admin / clear_admin keep the (symbolic) address.",
+   note="JSON text of the body outside (to_json_binary intercepted by the facade); the QUERY helper is outside (QuerierWrapper serialises / parses text: DESIGN P5); build2 (feature cosmwasm_1_2) outside; address content is symbolic on Remote->builder and builder->message but concrete through the generated helper (read-back does not finish); program dimension sampled",
+   ref="§3 C10"),
+ "C20": dict(
+   text="CBMC decides, for Remote<'_, T> with T in {two corpus contracts, dyn Interface<Error=..> of two interfaces, ()}, owned and borrowed, address bytes symbolic at lengths 0,1,3,4: the recorded serde events are exactly the struct {addr: <address string>} for every parameterisation; {addr: s} (also with an extra member) decodes to a handle whose address is s, while a missing, duplicated or non-string addr is an error; decode->encode round trip; schema_name is `Remote` for all T.",
+   note="JSON text layer and schema body outside; addresses <= 4 bytes; trusted: Kani/CBMC/cadical, support drivers",
+   ref="§3 C20"),
  "C06": dict(
    text="For 8 override configurations (real #[entry_points] expansion) CBMC decides, for EVERY entry point the configuration must emit (29 in total: instantiate/execute/query/sudo minus the overridden kinds, plus migrate/reply when such a handler exists and is not overridden), over all message arguments, env, info, storage tags and handler outcomes, that it builds the contract with new(), dispatches with the given deps/env/info (reply: dispatch_reply with gas and payload) and returns the dispatch outcome with the contract's error type. That the expected entry points EXIST is decided by the compile gate (the crate names them) -- this is how the wrong `query` override mapping was found (fixed).",
    note="absence of overridden / handler-less entry points is a token-level fact outside the claim; 8 of the 2^6 x 2 x 2 configurations are sampled; generic #[entry_points(generics<..>)] and the legacy reply entry point are outside; stubs: Backtrace::capture, fmt::format",
